@@ -36,6 +36,7 @@ Output line: the effects in order, `M<hex>` raw message, `L<hex>` auth line, `X`
                        value in the syntax of Driver/Val.lean.
 -/
 open Txdbus.Proto
+open Txdbus.Proto.Receive
 
 namespace DrvC04
 
